@@ -1,6 +1,7 @@
 (** C07: receiver gates. *)
 From Coq Require Import List NArith String Bool.
 From W.gen Require Import Extracted TieLib.
+From W.model Require Import TransferSpec.
 Import ListNotations.
 Open Scope string_scope.
 Example tie_recv :
@@ -8,4 +9,7 @@ Example tie_recv :
   && before "ingest.IndexTable" "objects.SaveTable" skel_recv_table
   && before "ingest.ProfileTable" "objects.SaveTable" skel_recv_table
   && before "objects.CommitExist" "objects.SaveCommit" skel_recv_commit = true.
+Proof. vm_compute; reflexivity. Qed.
+(* the receiver/indexer write-order facts the C07 model and proofs are written for *)
+Example tie_recv_skel : recv_skel_ok skel_recv_block skel_recv_table skel_recv_commit && index_skel_ok skel_index_table = true.
 Proof. vm_compute; reflexivity. Qed.
